@@ -158,11 +158,11 @@ func vfC06Gen(rt *rapid.T) vfC06Case {
 			return op
 		case w < 55:
 			d := genDoc(rt)
-			fail := rapid.SampledFrom([]string{"dim", "zero", "text", "meta_slice", "meta_nil", "meta_struct", "meta_int32", "meta_float32", "meta_uint", "meta_uint64", "meta_int8", "meta_strslice", "meta_map", "meta_ptr"}).Draw(rt, "fail_kind")
+			fail := rapid.SampledFrom([]string{"dim", "dim", "dim", "zero", "zero", "zero", "text", "text", "meta_slice", "meta_nil", "meta_struct", "meta_int32", "meta_float32", "meta_uint", "meta_uint64", "meta_int8", "meta_strslice", "meta_map", "meta_ptr"}).Draw(rt, "fail_kind")
 			if rapid.Bool().Draw(rt, "fail_explicit_id") {
 				d.ID = uint32(1<<30 + (1 << 21) + rapid.IntRange(0, 1000).Draw(rt, "fail_doc_id"))
 			}
-			if len(removedRefs) > 0 && rapid.IntRange(0, 3).Draw(rt, "fail_on_removed_id") == 0 {
+			if len(removedRefs) > 0 && rapid.IntRange(0, 1).Draw(rt, "fail_on_removed_id") == 0 {
 				return vfWOp{Op: "add_fail", Doc: d, Fail: fail, ReAdd: true, Ref: removedRefs[rapid.IntRange(0, len(removedRefs)-1).Draw(rt, "fail_reuse_idx")]}
 			}
 			return vfWOp{Op: "add_fail", Doc: d, Fail: fail, Ref: -1}
@@ -193,9 +193,12 @@ func vfC06Gen(rt *rapid.T) vfC06Case {
 	state := map[uint32]int{} // 0 absent, 1 live, 2 removed (unflushed or flushed)
 	dGen := rapid.Custom(func(rt *rapid.T) vfDirectOp {
 		id := uint32(rapid.IntRange(1, 3).Draw(rt, "d_id"))
-		switch w := rapid.IntRange(0, 9).Draw(rt, "d_class"); {
+		switch w := rapid.IntRange(0, 11).Draw(rt, "d_class"); {
 		case w < 2:
 			return vfDirectOp{Op: "flush"}
+		case w >= 10:
+			// an add that must fail (zero vector under cosine / wrong dimension), also on a removed id
+			return vfDirectOp{Op: "add_fail", ID: id, Content: rapid.IntRange(0, 1).Draw(rt, "d_fail_kind")}
 		case state[id] == 1:
 			state[id] = 2
 			return vfDirectOp{Op: "remove", ID: id}
@@ -705,6 +708,21 @@ func vfC06Direct(c *vfC06Case, ctx *vfCtx) *vfViolation {
 			}
 			delete(gone, op.ID)
 			live[op.ID] = op.Content
+		case "add_fail":
+			if ut == nil {
+				continue // the text and metadata indexes have no failing adds of this kind
+			}
+			if _, isLive := live[op.ID]; isLive {
+				continue
+			}
+			bad := make([]float32, c.Dim) // zero vector: rejected under cosine
+			if op.Content == 1 || DistanceKind(c.Metric) != Cosine {
+				bad = append(vfCloneF32(c.Contents[0]), 1) // wrong dimension: rejected by every kind
+			}
+			if err := ut.idx.Add(*NewVectorNodeWithID(op.ID, bad)); err == nil {
+				return vfFail("direct %s op %d: an invalid vector (len %d) was accepted", c.Direct, i, len(bad))
+			}
+			ctx.ClassIf(gone[op.ID], "direct_failed_re_add")
 		case "remove":
 			if _, isLive := live[op.ID]; !isLive {
 				continue
